@@ -10,172 +10,106 @@ PY = "/venv/bin/python"
 # property id -> (claimed clause, technique, trusted base / level note, design ref)
 CLAIMS = {
     "C01": (
-        "Decides statically, for all inputs, the dispatch around the graph searches: which graph questions a (verb, except) rule asks "
-        "(decision table extracted from BehaviorRequirement/RuleMatcher, compared with LANGUAGE_DEFINTION.md), how answers are wired into "
-        "the eight violation buckets and judged (present/absent mode), direction swap parity, verdict raise, and the edge-kind discipline "
-        "inside the three searches. Does NOT decide that the searches return the right set on every graph.",
-        "decision-table extraction over AST boolean formulas + def-use wiring + search-discipline lint (ast/CFG)",
-        "CPython ast; engine resolver; LANGUAGE_DEFINTION.md as oracle (cross-checked against a frozen copy)",
-        "DESIGN.md section 4 C01",
+        "Decides, for every rule configuration (6 verb/except points x 2 directions + the 2 'anything' aliases), the dispatch from the fluent configuration to graph questions and from answers to the verdict, read off an abstract interpretation of Rule.assert_applies: which questions are asked (vs the table parsed from LANGUAGE_DEFINTION.md), which query feeds which violation bucket under which flag and in which mode (present / absent per key, classified from add-events and their guards), no starved bucket, importer/importee exchange parity and provenance of every query argument, freshness of a second evaluation of the same rule object, effect table of every fluent method and the alias rewrite (flags kept, objects = subjects de-duplicated only by whole dotted descendants), AssertionError exactly on a truthy RuleViolations covering all fields; plus the search discipline of the four graph searches (every neighbour classified by edge kind before push / record / mark, only hierarchy edges followed from the subject, no early exit from neighbour or worklist loops, object / own / excluded sets built as documented). Does NOT decide that the searches return the right set on every graph.",
+        'abstract interpretation of the public entry points over the AST (checker-owned evaluator: symbolic inputs, resolved calls followed, both branches taken, events with path conditions; nothing of /repo is executed, no solver) + decision tables compared with the document oracle + guard implication over the search model (events with guards on normalised inline views)',
+        'CPython ast; LANGUAGE_DEFINTION.md as oracle (cross-checked against a frozen copy); engine resolver / CFG / guard enumeration',
+        "DESIGN.md section 4 C01 (meaning of the rules) and section 11 (how they are decided since the re-engineering)",
     ),
     "C02": (
-        "Decides the mechanism of the property for every statement position and import form: grammar-exhaustive descent of the import "
-        "collector against the running interpreter's ast grammar, dispatch of both import statement classes with every alias consumed, "
-        "`from P import n` looked up per name in the internal-module set without cross-name leakage, relative resolution shape, and "
-        "who-may-create import records/edges (edges only between known modules, importer->importee).",
-        "grammar-exhaustiveness over ast node classes + tag-flow (taint) analysis + dominance/guard implication",
-        "CPython ast docstrings describe the grammar; ast.iter_child_nodes yields every child; engine flow/resolver",
-        "DESIGN.md section 4 C02",
-    ),
-    "C15": (
-        "Decides purity structurally (for all histories, interleavings and hash seeds rather than sampled ones): the graph is frozen after "
-        "construction and graph mutators are reachable only from the constructor; nothing reachable from an evaluation entry point writes to "
-        "long-lived objects (receiver, arguments, objects derived from them) - the one reviewed exception, the alias rewrite of "
-        "Rule._configuration, is checked to be idempotent; no set-iteration order reaches text without sorted and no container is grown and "
-        "shrunk inside one loop over a set; no function writes class-level/module-level state and nothing is memoised. Does NOT decide "
-        "seed/ordering effects inside networkx/matplotlib.",
-        "effect analysis over the call graph (freshness, mutated-receiver/parameter summaries) + tag-flow for unordered collections + dominance",
-        "networkx.freeze makes mutators raise; engine resolver/call graph (CHA with name-based fallback), freshness analysis",
-        "DESIGN.md section 4 C15",
+        "Decides the mechanism of the property as symbolic test cases against the public entry points ImportConverter.convert, the Import API and NetworkxGraph(...): an Import and an ImportFrom placed at each of the statement-list positions of the running interpreter's ast grammar (also nested below every other position) come out as records; one record per imported name with the scanned file as importer; for `from P import n` the importee is P'.n exactly when the path decided `P'.n in internal` and P' otherwise, independently per name; the relative anchor is the importer minus `level` components; import-record constructors lie in the collector's call tree; graph construction adds an importer->importee edge without hierarchy marker only after both endpoints are known nodes and drops an edge only as self-edge, unknown endpoint or duplicate; records are de-duplicated only by a key that determines the edge.",
+        "abstract interpretation of the public entry points over the AST (checker-owned evaluator: symbolic inputs, resolved calls followed, both branches taken, events with path conditions; nothing of /repo is executed, no solver) with a grammar oracle read from the interpreter's ast classes",
+        "CPython ast docstrings describe the grammar; checker's models of ast / networkx / functools / itertools builtins",
+        "DESIGN.md section 4 C02 (meaning of the rules) and section 11 (how they are decided since the re-engineering)",
     ),
     "C03": (
-        "Decides four necessary conditions of exact reports for all graphs and rules: the 'something else' searches never expand a module "
-        "outside the subject's subtree and the excluded objects (no unrelated import can be recorded); every pair reaching a violation bucket "
-        "passes the re-orientation into user subject/object order exactly once; every bucket is rendered by both message generators, every "
-        "pair yields a line, lines are de-duplicated by full text and sorted; missing-import lines list all objects grouped under one subject. "
-        "Does NOT decide equality of the rendered set with a reference violating set.",
-        "search-model guard implication + tag-flow (single application of the re-orientation) + exhaustiveness over RuleViolations fields",
-        "engine search model, flow analysis and guard formulas",
-        "DESIGN.md section 4 C03",
-    ),
-    "C11": (
-        "Relational by-construction argument: compact and expanded rules drive the same pipeline with the same arguments. The regex conversion "
-        "unconditionally dominates every query and everything downstream reads the converted requirement; a regex contributes exactly the name "
-        "filters of the modules re.match accepts (accumulators change only under that test; unmatched raises before any result); partial names "
-        "become the regex filter of their translation; the three queries run one independent search per key over the full key set and store it "
-        "under that key (batch = conjunction). Regexes matching a module and its sub modules are outside the property (documented caveat).",
-        "dominance + guard implication + loop-independence (no loop-carried / shared state) analysis",
-        "re.match semantics; C15 purity; engine CFG/guards",
-        "DESIGN.md section 4 C11",
-    ),
-    "C12": (
-        "Decides the algebraic laws on the decision tables extracted from the code: duality (same explicit query after exactly one "
-        "importer/importee exchange, direction-independent predicate), negation (same source, complementary present/absent predicates, nothing "
-        "filtered in between), decomposition (bucket-set equality), alias rewrite, and the monotonicity lemma (traversals never depend on "
-        "import edges outside the subject's subtree / excluded objects). Laws for batched related operands are covered only as far as the "
-        "tables imply.",
-        "decision-table extraction and set algebra over extracted tables + search-model guard implication",
-        "C01's table extraction; C15 purity",
-        "DESIGN.md section 4 C12",
-    ),
-    "C13": (
-        "Decides per method and per guard (for all inputs, not per call history) that undefined or incomplete specifications are rejected "
-        "before a verdict can exist: no rewrite preceding a validator makes its guard unsatisfiable; validators, None-guards, entry-point "
-        "option guards and relative_to dominate evaluation / dereferences / state writes; AssertionError is raised only at the two verdict "
-        "sites and src/ has no assert; no broad or lookup-error handler around graph accesses; contradictory verbs raise exactly for "
-        "should_not + another verb; every subject/object/layer name reaches a raising lookup on every path; the required-configuration "
-        "formula is exactly 'subject, verb, import type or object missing'. Does NOT explore call sequences.",
-        "CFG dominance / must-pass-through + guard truth tables + who-may-raise and handler inventory (effect analysis)",
-        "networkx raises for missing nodes; Path.relative_to raises; engine CFG and guard formulas",
-        "DESIGN.md section 4 C13",
-    ),
-    "C14": (
-        "Decides a necessary condition of renaming invariance for all names: every startswith / endswith / in / find / replace / regex / "
-        "slice-by-length operation whose tested string derives from a module name (provenance computed by flow analysis, not variable names) "
-        "uses an idiom that compares whole dotted components; the name-cutting helpers cut at '.' only; sub-module sets follow hierarchy edges. "
-        "Does NOT decide invariance under renaming as a relation between two runs.",
-        "custom lint over string-relational operations with provenance (tag-flow) classification and accepted boundary-safe idiom table",
-        "engine flow analysis; accepted idioms listed in rules/names.py; reviewed user-pattern sites listed with reasons",
-        "DESIGN.md section 4 C14",
-    ),
-    "C17": (
-        "Decides the plot-label mechanism structurally for all trees and alias maps: boundary-safe, regex-free ancestor test; label = alias + "
-        "remainder after the matched ancestor; candidates longest first, first match wins; every graph node labelled exactly once with the full "
-        "name as default; aliases of unknown modules raise (naming the module) before any label is built; all other options reach the backend "
-        "unchanged; label computation keeps no state. Does NOT compute label maps.",
-        "F-NAME lint + dominance + shape checks of the label expression + effect analysis",
-        "engine flow/CFG/effects",
-        "DESIGN.md section 4 C17",
-    ),
-    "C05": (
-        "Decides the layer-rule mechanism structurally: each LayerRule method delegates to the documented Rule method and are_named lowers a "
-        "layer to all of its module filters with their own regex flag (no late-bound closure); lookups keyed by all layers are total on the "
-        "regex conversion map; every judgement on concrete 'other' dependencies is made on the same-layer-filtered set; explicit pairs are "
-        "grouped by the object-side module's layer and a layer is satisfied by any realisation; the layer of a module is found by whole dotted "
-        "components. Does NOT decide verdicts over all partitions.",
-        "delegation table + guard implication (total lookups) + tag-flow (sanitiser on every judgement) + late-binding closure lint + F-NAME lint",
-        "C01 (module rules the layer rule is lowered to); engine flow/guards",
-        "DESIGN.md section 4 C05",
-    ),
-    "C10": (
-        "Decides structurally that external options cannot touch internal modules: every evaluation of an external exclusion predicate sits "
-        "under a guard establishing the value is not internal; the internal test compares whole dotted components; the module list is extended "
-        "only under the negated internal test; with externals excluded the module list is returned unchanged and imports are filtered by the "
-        "internal test; an excluded ancestor excludes its descendants; the scan pipeline keeps no state between scans. Does NOT decide equality "
-        "of internal sub-graphs across configurations (a relation between scans).",
-        "tag-flow (provenance of external patterns) + guard implication + F-NAME lint + effect analysis",
-        "engine flow analysis and guard formulas",
-        "DESIGN.md section 4 C10",
-    ),
-    "C16": (
-        "Decides the builder guards structurally, per call: every `str | list[str]` parameter is normalised before anything iterates it; "
-        "LayerRule.are_named raises exactly when a further or batched layer is given on the subject side (truth table over side / subject "
-        "present / argument kind); pending-layer, duplicate-name, exactly-one-pending and duplicate-module guards dominate the state writes, the "
-        "duplicate check compares materialised collections over all stored modules, and the pending marker agrees with the type of stored "
-        "values; accepted definitions are stored whole, in order, under the pending layer and read back unchanged. Does NOT explore sequences.",
-        "use-classification of union-typed parameters + guard truth tables + CFG dominance of guards over state writes",
-        "engine CFG / guard formulas / resolver",
-        "DESIGN.md section 4 C16",
+        "Decides necessary conditions of exact reports for all graphs and rules: the 'something else' searches never expand a module outside the subject's subtree and the excluded objects; every pair in every violation bucket is (subject, object) in both rule directions; no pair of a query result is dropped by a data-dependent condition in the detector or on the way into the message, every bucket reaches the report and every line is built from subject, object and all fields of the record; a missing-import line lists all of and only the objects paired with its subject (grouping followed through defaultdict / setdefault / groupby with its sortedness precondition / dict.fromkeys aliasing); each query runs one search per given module with only the graph, its own key and the complete opposite set and stores it under its own key; a second RuleMatcher.match reads no field derived from the first evaluable. Does NOT decide equality of the rendered set with a reference violating set.",
+        'abstract interpretation of the public entry points over the AST (checker-owned evaluator: symbolic inputs, resolved calls followed, both branches taken, events with path conditions; nothing of /repo is executed, no solver) with role / provenance / loop-iteration identity carried by abstract values',
+        "engine search model; checker's abstract interpreter",
+        "DESIGN.md section 4 C03 (meaning of the rules) and section 11 (how they are decided since the re-engineering)",
     ),
     "C04": (
-        "Decides fully that the module-object entry point is a pure delegation (dirname(__file__) for the two module objects, every other "
-        "parameter forwarded to the same-named one with the same default), and structurally: role forwarding into generate_graph; one "
-        "registration per non-excluded directory / .py file under the dotted name of its path with the documented naming shape; ancestors and "
-        "hierarchy edges for every module with nodes created only from scanned modules and importers; the absolute-import prefix and its "
-        "uniform application to absolute (never relative) importees. Does NOT decide names for arbitrary trees or sub-scan = restriction.",
-        "argument-forwarding analysis + CFG dominance + tag-flow (who-may-create nodes, prefix adjustment) + shape checks",
-        "pathlib / os.path semantics; engine flow analysis",
-        "DESIGN.md section 4 C04",
+        'Decides on symbolic executions of get_evaluable_architecture, get_evaluable_architecture_for_module_objects, Parser.parse, NetworkxGraph.__init__ and ImportConverter.convert: the module-object entry point is a pure delegation and every option reaches the consumer of its role; a module is registered exactly for every non-excluded directory / .py file and descent, reading and parsing happen only after the exclusion test on the path itself; the module name is the root directory name plus the dotted path relative to the root (one component per path part); every scanned module and all its ancestors become nodes with an inherits edge per consecutive pair and nodes are never created from imported names; the absolute-import prefix is module_path.parent relative to root_path.parent and every absolute importee is `prefix.name` exactly when that is a scanned module (decision table over all membership scenarios), relative importees never are. Does NOT decide names for arbitrary trees or sub-scan = restriction as a relation between scans.',
+        'abstract interpretation of the public entry points over the AST (checker-owned evaluator: symbolic inputs, resolved calls followed, both branches taken, events with path conditions; nothing of /repo is executed, no solver) + normal forms of path / name terms + decision tables',
+        'pathlib / os.path semantics as modelled by the checker',
+        "DESIGN.md section 4 C04 (meaning of the rules) and section 11 (how they are decided since the re-engineering)",
     ),
-    "C08": (
-        "Decides the exclusion mechanism structurally: in the glob-to-regex conversion the user's text reaches the result only through "
-        "re.escape of the slice that strips at most one leading and one trailing marker, with '.*' and '$' placed per the 4-row table; a path is "
-        "excluded iff re.match of some compiled pattern succeeds on its full string; directories are registered/descended and files "
-        "registered/read/parsed only after the exclusion test on their own path; every glob is converted and the pattern tuple is never None. "
-        "Does NOT decide 'filtered scan = unfiltered scan minus matches' on all trees.",
-        "tag-flow (taint through re.escape) + decision table of marker placement + CFG dominance + Optional-flow check",
-        "re.escape escapes all metacharacters; engine flow / folding",
-        "DESIGN.md section 4 C08",
-    ),
-    "C09": (
-        "Decides the flattening mechanism structurally: during graph construction every node name reaching a networkx sink or the self-edge "
-        "comparison has passed _flatten_graph_node; the self-edge test dominates add_edge; flattening keeps the first limit+1 dotted components, "
-        "is the identity without a limit and is a pure function of (name, limit); the limit handed to the graph is the user's limit plus the "
-        "number of dotted components between root_path and module_path, None stays None. Does NOT decide the quotient law between two scans.",
-        "tag-flow (sanitiser on every sink) + dominance + shape checks + effect analysis",
-        "engine flow analysis / CFG",
-        "DESIGN.md section 4 C09",
+    "C05": (
+        "Decides the layer-rule mechanism on devirtualised inline views of the public LayerRule / Rule / RuleMatcher entry points: every LayerRule word delegates to exactly the documented Rule word and are_named hands over all filters of each named layer with their own regex flag; the matcher is wired to a LayerMapping and the mapping given to the detector is total over all layers, built from every conversion result and derived from the architecture's current definition (no stale snapshot); 'other' pairs are judged on the same-layer-filtered set (both ends, right polarity) and a layer is satisfied by any realisation; the layer lookup compares whole dotted components and its ancestor walk covers every ancestor and the name itself (unrolled on 1-3 component names); no late-bound closure; no conversion guarded by state that match itself writes. Does NOT decide verdicts over all partitions.",
+        'inline views (helper bodies substituted, self-calls devirtualised) + guard implication + tag-flow + small abstract interpreter for shapes of the query results + F-NAME lint',
+        'C01 (module rules the layer rule is lowered to); rules/tables.py; rules/names.py',
+        "DESIGN.md section 4 C05 (meaning of the rules) and section 11 (how they are decided since the re-engineering)",
     ),
     "C06": (
-        "Decides that every documented declaration and dependency form (identifier / identifier with _ and digits / dotted names; refs [N], "
-        "N, alias; arrows -->, ->, <--, <-, -text->, <-text-) is in the language of the regular expressions reconstructed from the source by "
-        "constant folding, with the named groups binding name / alias / dependor / dependee as intended (decided on the patterns' sre parse "
-        "trees by the checker's own interpreter, cross-validated against re on every run); per-component merging accumulates; aliases are "
-        "resolved on both sides and the component set collects declared names, keys and values; missing tags raise. Does NOT decide arbitrary "
-        "generated diagrams or forms outside the documented subset (listed as observations).",
-        "constant folding of patterns + regex-language membership with group capture on the sre parse tree + merge/flow lints",
-        "re._parser.parse gives the pattern's AST; checker's regex interpreter (cross-validated each run)",
-        "DESIGN.md section 4 C06",
+        'Decides on an abstract interpretation of PumlParser.parse: every documented declaration and dependency form (116-line form table, each embedded in a multi-line text as its call site uses the pattern) yields exactly the expected (name, alias) resp. (dependor, dependee) record through the regular expressions reconstructed from whatever builds them, with group roles derived from what they capture; tail / head groups flow into keys / value sets of the returned relation; per-component merging accumulates and never overwrites; declared names reach the relation only through alias resolution and all names reach the component set, the alias never does; records compared in sets / as keys compare on the alias too; the tag slicing folded on nine concrete layouts (tagged, noise around, missing / swapped / adjacent tags) scans exactly the body or raises PumlParsingError. Does NOT decide arbitrary generated diagrams or forms outside the documented subset.',
+        'abstract interpretation of the public entry points over the AST (checker-owned evaluator: symbolic inputs, resolved calls followed, both branches taken, events with path conditions; nothing of /repo is executed, no solver) (container shapes with provenance atoms of regex-group captures, constant folding of the string fragment) + regex-language membership on the sre parse tree',
+        "re._parser.parse gives the pattern's AST; checker's regex interpreter (cross-validated against re each run)",
+        "DESIGN.md section 4 C06 (meaning of the rules) and section 11 (how they are decided since the re-engineering)",
     ),
     "C07": (
-        "Decides the diagram-rule mechanism structurally: the converter emits, per dependency key, one should_only()/should() import rule over "
-        "all its targets (mode by the constructor flag) and, for every component, one should_not rule over all components minus itself minus "
-        "its targets iff non-empty; the multi applier evaluates every rule, collects exactly AssertionError messages and raises their join "
-        "after the loop; the base-module prefix is applied to component set, keys and values (identity without prefix) and every pipeline "
-        "stage consumes its predecessor. Equivalence with pairwise conformance on all graphs relies on C01 for each generated rule.",
-        "fluent-chain extraction + set-algebra shape check + tag-flow (prefix coverage) + dominance of the aggregated raise",
-        "C01 (meaning of generated module rules); engine CFG / flow",
-        "DESIGN.md section 4 C07",
+        'Decides by symbolic evaluation of the public stages on symbolic inputs (M, D, FLAG, P, R, EV) compared with an executable specification in normal form and, where normal forms differ as text, on all small finite models (<= 3 components, both modes, with/without prefix, <= 3 rules each failing or passing): convert(ParsedDependencies(M, D)) is the bag of one should(-only) rule per key of D over its targets plus one should-not rule per component over M - {m} - D.get(m) iff non-empty; MultipleRuleApplier evaluates every rule under exactly AssertionError and raises the join of the bag of all caught messages iff one was collected; ModulePrefixer.prefix and the three documented fluent protocols equal the reference pipeline parse -> prefix -> convert -> apply, also on a second evaluation of the same DiagramRule object. Equivalence with pairwise conformance on all graphs relies on C01 for each generated rule.',
+        "abstract interpretation of the public entry points over the AST (checker-owned evaluator: symbolic inputs, resolved calls followed, both branches taken, events with path conditions; nothing of /repo is executed, no solver) + term normalisation + exhaustive comparison on small finite models of the checker's own term language",
+        'C01 (meaning of generated module rules)',
+        "DESIGN.md section 4 C07 (meaning of the rules) and section 11 (how they are decided since the re-engineering)",
+    ),
+    "C08": (
+        "Decides the exclusion mechanism: the glob -> regex converter, interpreted over a symbolic string P + X + S for the seven classes of globs, yields ['.*'] + escape(text) + ['.*' | '$'] (proof per class, else a concrete counterexample glob / path); the exclusion predicate is `exists p in compiled patterns: re.match(p, str(path))` over all configured patterns, unfiltered, with the full path string as subject; every descend / read / parse / register event of the scan is guarded by 'not excluded' on the path itself and, for recursive listings (rglob / os.walk / glob('**')), by 'no excluded directory above it' established through whole path components; the option plumbing maps the converter over all globs, passes regexes unchanged and never None. Does NOT decide 'filtered scan = unfiltered scan minus matches' on all trees.",
+        'abstract interpretation of the public entry points over the AST (checker-owned evaluator: symbolic inputs, resolved calls followed, both branches taken, events with path conditions; nothing of /repo is executed, no solver) (symbolic strings; existential terms; scan events with guards over canonical path atoms)',
+        "re.escape escapes all metacharacters; checker's symbolic string operations (differentially fuzzed against Python, 583k cases)",
+        "DESIGN.md section 4 C08 (meaning of the rules) and section 11 (how they are decided since the re-engineering)",
+    ),
+    "C09": (
+        "Decides the flattening mechanism with a checker-owned finite-domain evaluator over whitelisted pure operations: every raw module / import name reaching a networkx sink has passed an expression tabulated (6 limits x 12 names incl. textual-prefix siblings) to be the identity without a limit and the first limit+1 components otherwise, with no class- or module-level state; every add_edge is guarded by inequality of exactly the inserted values and any other limit-dependent pair test equals 'both flatten to the same node'; the limit handed to the graph is None for None and the user's limit plus the number of levels between root_path and module_path (4 limits x 6 path pairs); any statement where the limit meets the module or import list withholds an import only if both ends flatten to the same node. Does NOT decide the quotient law between two scans.",
+        "tag-flow to graph sinks + tabulation of AST slices by the checker's finite-domain evaluator + guard implication + dependence analysis",
+        "checker's evaluator whitelist (str, int, list, dict, set, PurePosixPath, posixpath, re)",
+        "DESIGN.md section 4 C09 (meaning of the rules) and section 11 (how they are decided since the re-engineering)",
+    ),
+    "C10": (
+        'Decides on a symbolic model of the scan pipeline from generate_graph to NetworkxGraph(modules, imports): the retention condition of an internal import and of a scanned internal module is the same for every value of the external options; the internal test compares whole dotted components (F-NAME sites reachable from generate_graph, zip-truncation lint); names derived from an import become modules only when the internal test rejects the importee and every retained external import has its importee and ancestors in the module list; with externals excluded only internal imports remain and the module list is unchanged, with externals included an import is dropped exactly when its importee or any ancestor (walk unrolled on 1-4 component names) matches a pattern; the scan pipeline writes no class- or module-level state. Does NOT decide equality of internal sub-graphs across configurations as a relation between scans.',
+        'abstract interpretation of the public entry points over the AST (checker-owned evaluator: symbolic inputs, resolved calls followed, both branches taken, events with path conditions; nothing of /repo is executed, no solver) (lists described as parts with guards over FLAG / HAS / EXCL / INT atoms) + F-NAME lint + effect analysis',
+        'rules/names.py; core/effects.py',
+        "DESIGN.md section 4 C10 (meaning of the rules) and section 11 (how they are decided since the re-engineering)",
+    ),
+    "C11": (
+        "Relational by-construction argument on inline views of the public entry points: per evaluation the regex conversion runs unconditionally before every query, on both sides, against the evaluable being queried, and every query argument / detector / message generator reads this evaluation's conversion (state kept between evaluations only if assert_applies provably builds a fresh matcher); convert returns exactly the name filters of all modules m with re.match(f.identifier, m) for some regex filter f plus the non-regex filters, and raises ImpossibleMatch exactly when a pattern matched nothing, before any return; the partial-name and regex forms store one regex filter per given name (convert_partial_match_to_regex(n) resp. n); the three queries run one independent search per element of the full key sets and store it under its own key (batch = conjunction). Regexes matching a module and its sub modules are outside the property (documented caveat).",
+        'inline views + collection descriptions (what a collection holds, drawn from where, under which guard) + provenance + dominance',
+        're.match semantics; C15 purity',
+        "DESIGN.md section 4 C11 (meaning of the rules) and section 11 (how they are decided since the re-engineering)",
+    ),
+    "C12": (
+        "Decides the algebraic laws on the tables C01 extracts by abstract interpretation: duality (same explicit query after exactly one importer/importee exchange, direction-independent predicate), negation (same source, complementary present / absent predicates, nothing filtered in between), decomposition (equal bucket sets and predicates), alias rewrite, and the monotonicity lemma (the traversals classify every neighbour, never exit early and never depend on import edges outside the subject's subtree / excluded objects). Laws for batched related operands are covered only as far as the tables imply.",
+        "set algebra over the decision tables of C01's abstract interpretation + search-model guard implication",
+        "C01's tables; C15 purity",
+        "DESIGN.md section 4 C12 (meaning of the rules) and section 11 (how they are decided since the re-engineering)",
+    ),
+    "C13": (
+        "Decides on abstract runs of the public entry points that undefined or incomplete specifications are rejected before a verdict can exist: for each of six invalid-specification formulas (no verb / import type / subject / object, 'anything' without should_not, should_not with another verb) no normal return, verdict site or AssertionError raise of Rule.assert_applies is consistent with it, also after rewrites and on re-evaluation; the requirement class raises for contradictory verbs; side guards of the fluent words; LayerRule words need architecture and rule; DiagramRule needs the file and, per tag, a search whose 'absent' outcome reaches no verdict; the three invalid option combinations and module_path outside root_path admit no normal return; AssertionError is raised only from values derived from evaluation; no broad / lookup-error handler around graph accesses; every subject / object / layer name reaches a raising lookup on every path. Does NOT explore call histories beyond the second evaluation.",
+        'abstract interpretation of the public entry points over the AST (checker-owned evaluator: symbolic inputs, resolved calls followed, both branches taken, events with path conditions; nothing of /repo is executed, no solver) (outcomes and events with path conditions, satisfiability by enumeration over a cone of influence) + taint analysis of verdict raises + handler inventory',
+        'networkx raises for missing nodes; Path.relative_to raises',
+        "DESIGN.md section 4 C13 (meaning of the rules) and section 11 (how they are decided since the re-engineering)",
+    ),
+    "C14": (
+        "Decides a necessary condition of renaming invariance for all names: every string-relational operation (startswith / endswith / removeprefix / find / index / count / replace / partition / split / in / re.* / fnmatch / commonprefix / slicing by len or index / slice-compare / bisect ranges) whose operand derives from a module name (provenance by flow analysis from the public name sources) uses an idiom that compares whole dotted components - classified safe / unsafe / unknown by a must-analysis of the needle's origins (does every origin end in the separator or is it a plain name, through locals, fields, parameters at every call site, returns) with a may-tag fallback, relations established on the path, in callers, by predicate helpers or by construction as an ancestor; names are cut, joined and compared only at '.'; sub-module sets follow hierarchy edges. 145 idioms in a positive fixture are classified on every run. Does NOT decide invariance under renaming as a relation between two runs.",
+        'custom lint with provenance (tag-flow) + must/may origin analysis + guard-established relations + positive fixture',
+        'engine flow analysis; idioms of engine/fixtures/name_ops.py',
+        "DESIGN.md section 4 C14 (meaning of the rules) and section 11 (how they are decided since the re-engineering)",
+    ),
+    "C15": (
+        "Decides purity structurally (for all histories, interleavings and hash seeds rather than sampled ones): the graph holder's constructor freezes the graph attribute itself on every path with no mutation afterwards, registers all modules before any import edge, and no graph mutator is reachable from an evaluation entry point; nothing reachable from assert_applies / the queries / visualize / modules writes to long-lived objects (ownership analysis to depth 3 through aliases, containers, fields, closures) except an idempotent, argument-independent self-rewrite; no set-iteration order reaches text (position-sensitive through tuples, helper returns and generators; sorted / sort restore order); no class-, module-level or escaping-closure state and no observable cache; in loops over collections whose order is not part of the contract (sets, directory listings, caller-listed sequences) no keep-or-drop decision reads what earlier iterations accumulated, except de-duplication on the element's own identity. Does NOT decide seed / ordering effects inside networkx / matplotlib.",
+        'ownership / effect analysis over the call graph + tag-flow for unordered collections + CFG dominance on inline views + loop-carried-state analysis',
+        'networkx.freeze makes mutators raise; engine resolver / call graph',
+        "DESIGN.md section 4 C15 (meaning of the rules) and section 11 (how they are decided since the re-engineering)",
+    ),
+    "C16": (
+        "Decides the builder guards by abstract interpretation of the public LayeredArchitecture / LayerRule / Rule words: no raw `str | list[str]` value is iterated; LayerRule.are_named raises exactly for 'wrapped rule on the subject side and (subject present or list)' in every state reachable by sequences of the documented words up to 5 calls (own-state representations included), leaves the side flag's truth value unchanged and the side-flag table of layers_that / behaviour words / access words holds; layer() stores an empty value only under 'no pending layer and name unused'; module-assigning words write only with exactly one pending layer (pending-set predicate evaluated on [] and ()), the duplicate guard covers the whole normalised argument against the identifiers of all stored filters of any class; the stored entry's key is the pending layer, the value one filter per element in order, and __getitem__ / __str__ read it back unfiltered. Sequences are explored only as far as stated.",
+        'abstract interpretation of the public entry points over the AST (checker-owned evaluator: symbolic inputs, resolved calls followed, both branches taken, events with path conditions; nothing of /repo is executed, no solver) (events with path conditions turned into formulas over small integer lengths, exhaustive model enumeration) + raw-value flow analysis + positive fixture',
+        "checker's interpreter; engine/fixtures/c16_union_params.py",
+        "DESIGN.md section 4 C16 (meaning of the rules) and section 11 (how they are decided since the re-engineering)",
+    ),
+    "C17": (
+        "Decides the plot-label mechanism on a deep view of the public entry points visualize -> draw (helpers of any name / location substituted, comprehensions and table loops unrolled): visualize hands the caller's options to draw unchanged; the ancestor match is equivalent to 'equals or extends by whole components' and the label is the alias plus the rest of the name after the matched module, taken on the module's name; the most specific aliased ancestor wins (selection form x candidate domain - all aliased modules, unfiltered, or the module's lineage - x order x first / last / longest-match discipline); every graph node gets a label on every path with the full name as default; an alias for a module that is not a node of the drawn graph raises an error naming it (tested on the key itself) before labels are handed over; exactly spacing / aliases are consumed and pos / labels added, each iff its option was given, everything else reaches draw_networkx unchanged on every returning path; no self / class / module state is written. Does NOT compute label maps.",
+        'deep inline view + symbolic evaluation of the options dict + guard equivalence (boolean helpers inlined) + CFG all-paths arguments + effect analysis + F-NAME lint',
+        'rules/names.py; core/effects.py',
+        "DESIGN.md section 4 C17 (meaning of the rules) and section 11 (how they are decided since the re-engineering)",
     ),
 }
 
@@ -221,8 +155,10 @@ def main() -> None:
                 "path": "/verif/engine",
                 "serves_properties": [c["property_id"] for c in checks],
                 "kind_free_text": "repository-specific static analyser (stdlib ast + networkx): loader/symbol table, annotation-driven resolver "
-                "and call graph, statement CFG with dominators and path conditions, propositional guard formulas, tag-flow analysis, "
-                "constant folding, regex NFA; rules per property in engine/rules",
+                "and call graph, statement CFG with dominators and path conditions, propositional guard formulas with exhaustive enumeration, "
+                "tag-flow analysis, effect/ownership analysis, constant folding, regex interpreter on sre parse trees, boolean-helper inlining "
+                "and statement-level inline views, per-property abstract interpreters of the public entry points (checker-owned evaluators "
+                "over the AST; nothing of /repo is imported or executed, no solver); rules per property in engine/rules",
             }
         ],
         "checks": checks,
